@@ -5,5 +5,8 @@ CONSTANTS
   WithEmpty = TRUE
   MaxPathLen = 4
   ModelKinds = {"addresses", "timeout", "log-level", "process-concurrency", "bool"}
+  ChainLen = 3
+  Changes = {}
 INVARIANTS TypeOK DirectMatch LevelByLevel FromLongestPrefix OthersIrrelevant EmptyNeverUsed
+PROPERTIES RepeatSame ChangeRespected CurrentTreeOnly
 CHECK_DEADLOCK FALSE
